@@ -201,4 +201,94 @@ theorem evalEvs_nestFree (w : World) : ∀ (es : List Ev) (σ : State), nestFree
     | err x => right; exact ⟨x, σ1, by simp [evalEvs, h1], hr1⟩
 end
 
+/-! ### frame: nothing writes `env` / `dec` -/
+
+/-- `σ'` has the environment and decimal context of `σ` -/
+def Frame (σ σ' : State) : Prop := σ'.env = σ.env ∧ σ'.dec = σ.dec
+
+/-- every state carried by a result is in `Frame` with `σ` -/
+def Res.framed {α : Type} (r : Res α) (σ : State) : Prop :=
+  match r with
+  | .ok _ σ' => Frame σ σ'
+  | .err _ σ' => Frame σ σ'
+  | .stuck σ' => Frame σ σ'
+
+theorem Frame.refl (σ : State) : Frame σ σ := ⟨rfl, rfl⟩
+theorem Frame.trans {a b c : State} (h1 : Frame a b) (h2 : Frame b c) : Frame a c :=
+  ⟨h2.1.trans h1.1, h2.2.trans h1.2⟩
+
+theorem Res.framed_trans {α : Type} {r : Res α} {a b : State} (h1 : Frame a b)
+    (h2 : r.framed b) : r.framed a := by
+  cases r <;> exact Frame.trans h1 h2
+
+theorem setloc_frame {w : World} {σ σ' : State} {n : Loc} (h : setloc w σ n = some σ') :
+    Frame σ σ' := by
+  have := setloc_some h; exact ⟨this.2.2.2.1, this.2.2.2.2⟩
+
+theorem enter_frame (w : World) (m : Mgr) (σ : State) : (enter w m σ).framed σ := by
+  unfold enter
+  cases m.lc with
+  | none => exact Frame.refl σ
+  | some req =>
+    simp only
+    split
+    · exact Frame.refl σ
+    · split
+      · next σ2 h => have := setloc_frame h; exact ⟨this.1, this.2⟩
+      · split
+        · split
+          · next σ2 h => have := setloc_frame h; exact ⟨this.1, this.2⟩
+          · exact ⟨rfl, rfl⟩
+        · exact ⟨rfl, rfl⟩
+
+theorem finish_frame (w : World) (saved : Option Loc) (p : Out) (σ : State) :
+    (finish w saved p σ).framed σ := by
+  unfold finish exit
+  cases saved with
+  | none => exact Frame.refl σ
+  | some s =>
+    simp only
+    cases h : setloc w σ s with
+    | some σ' => have := setloc_frame h; exact ⟨this.1, this.2⟩
+    | none => exact ⟨rfl, rfl⟩
+
+mutual
+theorem evalEv_frame (w : World) : ∀ (ev : Ev) (σ : State), (evalEv w ev σ).framed σ
+  | .call mk inner raises, σ => by
+    cases mk with
+    | error e => simp only [evalEv]; exact Frame.refl σ
+    | ok m =>
+      have he := enter_frame w m σ
+      simp only [evalEv]
+      cases h1 : enter w m σ with
+      | stuck τ => rw [h1] at he; exact he
+      | err e τ => rw [h1] at he; exact he
+      | ok saved σ1 =>
+        rw [h1] at he
+        have hi := evalEvs_frame w inner σ1
+        simp only
+        cases h2 : evalEvs w inner σ1 with
+        | stuck τ => rw [h2] at hi; exact Frame.trans he hi
+        | err e σ2 =>
+          rw [h2] at hi
+          exact Res.framed_trans (Frame.trans he hi) (finish_frame w saved _ σ2)
+        | ok u σ2 =>
+          rw [h2] at hi
+          cases raises <;>
+            exact Res.framed_trans (Frame.trans he hi) (finish_frame w saved _ σ2)
+theorem evalEvs_frame (w : World) : ∀ (es : List Ev) (σ : State), (evalEvs w es σ).framed σ
+  | [], σ => by simp only [evalEvs]; exact Frame.refl σ
+  | e :: es, σ => by
+    have h1 := evalEv_frame w e σ
+    simp only [evalEvs]
+    cases h : evalEv w e σ with
+    | stuck τ => rw [h] at h1; exact h1
+    | err x τ => rw [h] at h1; exact h1
+    | ok out τ =>
+      rw [h] at h1
+      cases out with
+      | err x => exact h1
+      | ok => exact Res.framed_trans h1 (evalEvs_frame w es τ)
+end
+
 end EPV.Globals
